@@ -12,7 +12,14 @@
    aa7dec7 (monitor first value), 00876a0 (launch gate; only started runnables are stopped),
    4585550 (finals), and the repairs for C03 (a cancelled readiness wait still returns a queued
    failure: LGateCtx) and C06 (startRunnable broadcasts the map after storing the initial state:
-   LRunCall). *)
+   LRunCall).
+
+   Run() is an action of the environment: the initial state has no Run() goroutine and no manager
+   (main = MNew).  LRunEnter is the (logged) call of Run(), LRunEntered the moment Run() sets
+   p.runEntered and launches its managers - unless Shutdown() has closed the launch gate before, in
+   which case Run() starts nothing at all and goes to reap().  A Shutdown() that closes the gate
+   BEFORE p.runEntered is set stops EVERY registered runnable (stopCount = len(p.runnables),
+   supervisor.go Shutdown), although no Run was invoked. *)
 From Coq Require Import List NArith Bool Arith.
 Import ListNotations.
 
@@ -84,6 +91,8 @@ Inductive event :=
 | ERet (k : nat) (o : op)
 | EParentCancel
 | ERunReturn (r : result)
+| ERunEnter                                           (* the environment calls Run() *)
+| EEntered                                            (* evidence that Run() has set p.runEntered (its next log record was seen) *)
 | ESubscribe (c : nat)
 | ESubRecv (c : nat) (m : list (option st))
 | ESubCancel (c : nat)
@@ -97,6 +106,8 @@ Inductive event :=
 Inductive rn_pc := RnNot | RnLaunched | RnStored | RnRunning | RnSending (e : errid) | RnDone.
 
 Inductive main_pc :=
+| MNew                       (* Run() has not been called *)
+| MEntering                  (* Run() was called; p.runEntered is not set yet *)
 | MLaunch (i : nat)          (* about to launch runnable i (i = n: go to reap) *)
 | MGate (i : nat)            (* inside blockUntilRunnableReady for i *)
 | MGateCheck (i : nat)       (* IsRunning() was true; about to look at errorChan *)
@@ -134,6 +145,10 @@ Record aux_state := {
   sub_ok : list bool;                    (* GetStateChan of i may return *)
   polling : bool;                        (* Main is inside a (slow) IsRunning() call *)
   finals : list (option st);             (* final state Shutdown recorded for i after its Stop() (repo fix for C06) *)
+  run_entered : bool;                    (* p.runEntered: Run() has passed its first critical section *)
+  sd_all : bool;                         (* ghost: Shutdown closed the launch gate before p.runEntered was set: it stops
+                                            every registered runnable *)
+  su_fired : bool;                       (* ghost: a start-up deadline has fired (LGateTimeout was taken) *)
 }.
 
 Record state := {
@@ -402,31 +417,35 @@ Definition set_aux (s : state) (a : aux_state) : state :=
 
 Definition init (c : config) : state :=
   let n := nrun c in
-  {| main := MLaunch 0;
+  {| main := MNew;
      rn := repeat RnNot n;
      stop_called := repeat false n;
      errq := []; sigq := [];
      own_cancel := false; parent_cancel := false;
      sd := SdNot; sd_timed_out := false; sd_trig := 0;
-     rm := if any_spec reloadable c then RmIdle else RmAbsent;
-     rls := map (fun r => if rsender r && any_spec reloadable c then LsIdle else LsAbsent) (specs c);
-     sls := map (fun r => if ssender r then LsIdle else LsAbsent) (specs c);
-     sdm_done := negb (any_spec ssender c);
-     stm_done := negb (any_spec stateable c);
-     mon := map (fun r => if stateable r then MoNot else MoAbsent) (specs c);
+     (* the managers are started by Run() (LRunEntered) *)
+     rm := RmAbsent;
+     rls := map (fun _ => LsAbsent) (specs c);
+     sls := map (fun _ => LsAbsent) (specs c);
+     sdm_done := true;
+     stm_done := true;
+     mon := map (fun _ => MoAbsent) (specs c);
      mq := repeat [] n;
      cur := repeat 0 n;
      smap := repeat None n;
      hup := 0; callers := []; subs := []; passes := 0;
      aux := {| rtrig := repeat 0 n; strig := repeat 0 n;
                sub_ok := map (fun r => negb (held_sub r)) (specs c); polling := false;
-               finals := repeat None n |};
+               finals := repeat None n; run_entered := false; sd_all := false; su_fired := false |};
      hist := [] |}.
 
 (* ------------------------------------------------------------------ labels *)
 
 Inductive label :=
 (* Main *)
+| LRunEnter                              (* visible: the environment calls Run() *)
+| LRunEntered                            (* tau: Run() sets p.runEntered and launches the managers (if the launch gate is open) *)
+| LSeenEntered                           (* visible: Run() was observed past its first critical section *)
 | LLaunch (i : nat)                      (* tau: wg.Go(runnable i); then gate or next *)
 | LPollBegin (i : nat)                   (* Main enters IsRunning(); reported only for slow answers *)
 | LPoll (i : nat) (b : bool)             (* IsRunning() answered b *)
@@ -483,10 +502,20 @@ Inductive label :=
 | LSubClosed (c : nat)                   (* the consumer observes the closed channel *)
 | LSubRel (i : nat)
 | LQuiet
-| LSnap (o : snapshot).
+| LSnap (o : snapshot)
+(* helper goroutines leaving on their own (ctx.Done / end of Shutdown).  The acceptor does not explore them (they are
+   not in [taus]: a helper's exit is observable only through its manager's join, which subsumes it - keeping the
+   frontier small); they exist so that theorems can say that every helper CAN leave and count it until it has *)
+| LRlsExit (i : nat)                     (* tau: reload-trigger listener i leaves on ctx.Done *)
+| LSlsExit (i : nat)                     (* tau: shutdown-trigger listener i leaves on ctx.Done *)
+| LMonExit (i : nat)                     (* tau: state monitor i leaves on ctx.Done (GetStateChan honours its context) *)
+| LHupExit                               (* tau: a 'go p.ReloadAll()' goroutine gives up on ctx.Done *)
+| LSdTrigExit.                           (* tau: a trigger-spawned 'go p.Shutdown()' goroutine returns once Shutdown is done *)
 
 Definition obs (l : label) : option event :=
   match l with
+  | LRunEnter => Some ERunEnter
+  | LSeenEntered => Some EEntered
   | LPollBegin i => Some (EPollBegin i)
   | LPoll i b => Some (EPoll i b)
   | LMainReturn r => Some (ERunReturn r)
@@ -522,11 +551,6 @@ Definition launched (s : state) : nat :=
   length (filter (fun p => match p with RnNot => false | _ => true end) (rn s)).
 
 Definition sd_next (k : nat) : sd_pc := match k with O => SdCancel | S _ => SdNext k end.
-
-(* the moment Shutdown closes the launch gate (00876a0): from here on Run() starts nothing, and
-   only what it has started so far will be stopped *)
-Definition start_shutdown (c : config) (s : state) : state :=
-  match sd s with SdNot => set_sd s (sd_next (launched s)) | _ => s end.
 
 Definition store_state (c : config) (s : state) (i : nat) : state :=
   if stateable (spec c i) then set_smap s (upd (smap s) i (Some (cur_at s i))) (subs s) else s.
@@ -565,16 +589,56 @@ Definition mark_mon_done (l : list mon_pc) : list mon_pc :=
   map (fun p => match p with MoAbsent => MoAbsent | _ => MoDone end) l.
 
 Definition set_rtrig (s : state) (l : list nat) : state :=
-  set_aux s {| rtrig := l; strig := strig (aux s); sub_ok := sub_ok (aux s); polling := polling (aux s); finals := finals (aux s) |}.
+  set_aux s {| rtrig := l; strig := strig (aux s); sub_ok := sub_ok (aux s); polling := polling (aux s); finals := finals (aux s);
+               run_entered := run_entered (aux s); sd_all := sd_all (aux s); su_fired := su_fired (aux s) |}.
 Definition set_strig (s : state) (l : list nat) : state :=
-  set_aux s {| rtrig := rtrig (aux s); strig := l; sub_ok := sub_ok (aux s); polling := polling (aux s); finals := finals (aux s) |}.
+  set_aux s {| rtrig := rtrig (aux s); strig := l; sub_ok := sub_ok (aux s); polling := polling (aux s); finals := finals (aux s);
+               run_entered := run_entered (aux s); sd_all := sd_all (aux s); su_fired := su_fired (aux s) |}.
 Definition set_sub_ok (s : state) (l : list bool) : state :=
-  set_aux s {| rtrig := rtrig (aux s); strig := strig (aux s); sub_ok := l; polling := polling (aux s); finals := finals (aux s) |}.
+  set_aux s {| rtrig := rtrig (aux s); strig := strig (aux s); sub_ok := l; polling := polling (aux s); finals := finals (aux s);
+               run_entered := run_entered (aux s); sd_all := sd_all (aux s); su_fired := su_fired (aux s) |}.
 Definition set_polling (s : state) (b : bool) : state :=
-  set_aux s {| rtrig := rtrig (aux s); strig := strig (aux s); sub_ok := sub_ok (aux s); polling := b; finals := finals (aux s) |}.
+  set_aux s {| rtrig := rtrig (aux s); strig := strig (aux s); sub_ok := sub_ok (aux s); polling := b; finals := finals (aux s);
+               run_entered := run_entered (aux s); sd_all := sd_all (aux s); su_fired := su_fired (aux s) |}.
 Definition set_finals (s : state) (l : list (option st)) : state :=
   set_aux s {| rtrig := rtrig (aux s); strig := strig (aux s); sub_ok := sub_ok (aux s); polling := polling (aux s);
-               finals := l |}.
+               finals := l;
+               run_entered := run_entered (aux s); sd_all := sd_all (aux s); su_fired := su_fired (aux s) |}.
+Definition set_run_entered (s : state) : state :=
+  set_aux s {| rtrig := rtrig (aux s); strig := strig (aux s); sub_ok := sub_ok (aux s); polling := polling (aux s);
+               finals := finals (aux s);
+               run_entered := true; sd_all := sd_all (aux s); su_fired := su_fired (aux s) |}.
+Definition set_sd_all (s : state) : state :=
+  set_aux s {| rtrig := rtrig (aux s); strig := strig (aux s); sub_ok := sub_ok (aux s); polling := polling (aux s);
+               finals := finals (aux s);
+               run_entered := run_entered (aux s); sd_all := true; su_fired := su_fired (aux s) |}.
+Definition set_su_fired (s : state) : state :=
+  set_aux s {| rtrig := rtrig (aux s); strig := strig (aux s); sub_ok := sub_ok (aux s); polling := polling (aux s);
+               finals := finals (aux s);
+               run_entered := run_entered (aux s); sd_all := sd_all (aux s); su_fired := true |}.
+
+(* how many runnables Shutdown will stop (stopCount): what Run() has started so far when Run() is driving
+   the start-up, every registered runnable when Run() has not been entered *)
+Definition stop_count (c : config) (s : state) : nat :=
+  if run_entered (aux s) then launched s else nrun c.
+
+(* the moment Shutdown closes the launch gate (00876a0): from here on Run() starts nothing *)
+Definition start_shutdown (c : config) (s : state) : state :=
+  match sd s with
+  | SdNot => set_sd (if run_entered (aux s) then s else set_sd_all s) (sd_next (stop_count c s))
+  | _ => s
+  end.
+
+(* Run(), launch gate open: the reload manager with one listener per ReloadSender, the state monitor with one
+   monitor per Stateable, the shutdown manager with one listener per ShutdownSender *)
+Definition start_managers (c : config) (s : state) : state :=
+  set_mon
+    (set_listeners
+       (set_rm s (if any_spec reloadable c then RmIdle else RmAbsent) (passes s))
+       (map (fun r => if rsender r && any_spec reloadable c then LsIdle else LsAbsent) (specs c))
+       (map (fun r => if ssender r then LsIdle else LsAbsent) (specs c))
+       (negb (any_spec ssender c)) (negb (any_spec stateable c)))
+    (map (fun r => if stateable r then MoNot else MoAbsent) (specs c)) (mq s).
 
 (* Shutdown, after the wait for the goroutines has COMPLETED (not after its timeout): the final states
    recorded after each Stop() are stored again - a state monitor that was still catching up may have written
@@ -591,6 +655,20 @@ Definition restore_finals (s : state) : state := set_smap s (overlay (finals (au
 Definition step0 (c : config) (s : state) (l : label) : option state :=
   let n := nrun c in
   match l with
+  | LRunEnter =>
+    match main s with
+    | MNew => Some (with_hist (set_main s MEntering) ERunEnter)
+    | _ => None
+    end
+  | LRunEntered =>
+    match main s with
+    | MEntering =>
+      let s1 := set_run_entered s in
+      Some (set_main (match sd s with SdNot => start_managers c s1 | _ => s1 end) (MLaunch 0))
+    | _ => None
+    end
+  | LSeenEntered =>
+    if run_entered (aux s) then Some (with_hist s EEntered) else None
   | LLaunch i =>
     match main s with
     | MLaunch j =>
@@ -636,7 +714,7 @@ Definition step0 (c : config) (s : state) (l : label) : option state :=
   | LGateTimeout i =>
     match main s with
     | MGate j => if Nat.eqb i j && startup_may_fire c && negb (ctx_done s) && negb (polling (aux s))
-                 then Some (set_main s (MExit ResTimeout)) else None
+                 then Some (set_main (set_su_fired s) (MExit ResTimeout)) else None
     | _ => None
     end
   | LGateCtx i =>
@@ -972,12 +1050,38 @@ Definition step0 (c : config) (s : state) (l : label) : option state :=
     end
   | LSubRel i =>
     if Nat.ltb i n then
-      Some (with_hist (set_aux s {| rtrig := rtrig (aux s); strig := strig (aux s);
-                                    sub_ok := upd (sub_ok (aux s)) i true; polling := polling (aux s);
-                                    finals := finals (aux s) |}) (ESubRel i))
+      Some (with_hist (set_sub_ok s (upd (sub_ok (aux s)) i true)) (ESubRel i))
     else None
   | LQuiet => None
   | LSnap _ => None
+  | LRlsExit i =>
+    match get LsAbsent (rls s) i with
+    | LsIdle | LsFwd =>
+      if ctx_done s then Some (set_listeners s (upd (rls s) i LsDone) (sls s) (sdm_done s) (stm_done s)) else None
+    | _ => None
+    end
+  | LSlsExit i =>
+    match get LsAbsent (sls s) i with
+    | LsIdle | LsFwd =>
+      if ctx_done s then Some (set_listeners s (rls s) (upd (sls s) i LsDone) (sdm_done s) (stm_done s)) else None
+    | _ => None
+    end
+  | LMonExit i =>
+    match mon_at s i with
+    | MoNot | MoFirst | MoLoop _ =>
+      if ctx_done s then Some (set_mon s (upd (mon s) i MoDone) (upd (mq s) i [])) else None
+    | _ => None
+    end
+  | LHupExit =>
+    match hup s with
+    | S h => if ctx_done s then Some (set_hup s h) else None
+    | O => None
+    end
+  | LSdTrigExit =>
+    match sd_trig s, sd s with
+    | S t, SdDone => Some (set_sd_trig s t)
+    | _, _ => None
+    end
   end.
 
 (* ------------------------------------------------------------------ label enumeration *)
@@ -988,7 +1092,7 @@ Definition idxs (c : config) : list nat := seq 0 (nrun c).
 Definition taus_nt (c : config) (s : state) : list label :=
   let ix := idxs c in
   map LLaunch ix ++ map LGateDecide ix ++ map LGateErr ix ++ map LGateCtx ix
-  ++ [LReapErr; LReapCtx; LReapSig; LMainShutdown]
+  ++ [LRunEntered; LReapErr; LReapCtx; LReapSig; LMainShutdown]
   ++ map LErrSend ix ++ map LRunStore ix
   ++ [LSdCancel; LSdWgDone]
   ++ map (fun kc => LRmAccept (SndCaller (fst (fst kc)))) (callers s)
@@ -1025,7 +1129,7 @@ Definition count_if {A} (f : A -> bool) (l : list A) : nat := length (filter f l
    transition of the model (it is observable only through its manager's join). *)
 Definition census (s : state) : nat :=
   let live := negb (ctx_done s) in
-  (match main s with MReturned _ => 0 | _ => 1 end)
+  (match main s with MNew | MReturned _ => 0 | _ => 1 end)
   + count_if (fun p => match p with RnLaunched | RnStored | RnRunning | RnSending _ => true | _ => false end) (rn s)
   + (if rm_finished (rm s) then 0 else 1)
   + (if live then count_if (fun p => negb (ls_finished p)) (rls s) else 0)
@@ -1098,6 +1202,8 @@ Definition event_eqb (a b : event) : bool :=
   | EEmit i x, EEmit j y => Nat.eqb i j && Nat.eqb x y
   | ECall k o, ECall k' o' | ERet k o, ERet k' o' => Nat.eqb k k' && op_eqb o o'
   | EParentCancel, EParentCancel => true
+  | ERunEnter, ERunEnter => true
+  | EEntered, EEntered => true
   | EQuiet, EQuiet => true
   | ERunReturn r, ERunReturn r' => result_eqb r r'
   | ESubRecv c0 m, ESubRecv c1 m' => Nat.eqb c0 c1 && smap_eqb m m'
@@ -1123,6 +1229,8 @@ Definition vis (c : config) (s : state) (e : event) : list label :=
   | ERet k o => [LRet k o]
   | EParentCancel => [LParentCancel]
   | ERunReturn r => [LMainReturn r]
+  | ERunEnter => [LRunEnter]
+  | EEntered => [LSeenEntered]
   | ESubscribe c0 => [LSubscribe c0]
   | ESubRecv c0 m => [LSubRecv c0 m]
   | ESubCancel c0 => [LSubCancel c0]
@@ -1145,6 +1253,7 @@ Definition key_main (m : main_pc) : list N :=
   | MLaunch i => [0%N; nn i] | MGate i => [1%N; nn i] | MGateCheck i => [2%N; nn i]
   | MReap => [3%N] | MExit r => 4%N :: key_result r | MWaitSd r => 5%N :: key_result r
   | MReturned r => 6%N :: key_result r
+  | MNew => [7%N] | MEntering => [8%N]
   end.
 
 Definition key_rn (p : rn_pc) : list N :=
@@ -1198,6 +1307,7 @@ Definition key (s : state) : list N :=
   ++ flat_map key_mon (mon s) ++ sep :: flat_map (fun q => sep :: map nn q) (mq s)
   ++ sep :: map nn (cur s) ++ sep :: flat_map key_ost (smap s)
   ++ [sep; nn (hup s); nn (passes s)] ++ map nn (rtrig (aux s)) ++ sep :: map nn (strig (aux s))
-  ++ sep :: map bb (sub_ok (aux s)) ++ [sep; bb (polling (aux s))] ++ flat_map key_ost (finals (aux s)) ++ [sep]
+  ++ sep :: map bb (sub_ok (aux s)) ++ [sep; bb (polling (aux s)); bb (run_entered (aux s)); bb (sd_all (aux s)); bb (su_fired (aux s))]
+  ++ flat_map key_ost (finals (aux s)) ++ [sep]
   ++ flat_map (fun kc => nn (fst (fst kc)) :: key_op (snd (fst kc)) ++ [match snd kc with CPending => 0%N | CReady => 1%N | CNew => 2%N end]) (callers s)
   ++ sep :: flat_map (fun b => sep :: key_sub b) (subs s).
